@@ -33,6 +33,7 @@ struct Basic {
   RCPBasic g_sub(const Basic &o) const; RCPBasic g_mul(const Basic &o) const;
   RCPBasic number_sub(const Basic &o) const; RCPBasic number_rsub(const Basic &o) const; RCPBasic number_div(const Basic &o) const; RCPBasic number_rdiv(const Basic &o) const;
   bool get_val() const { return bval; }
+  bool is_exact() const { return type_code_ != SYMENGINE_REAL_DOUBLE && type_code_ != SYMENGINE_COMPLEX_DOUBLE; }      /* Number::is_exact: false for the floating kinds */
   bool __eq__(const Basic &o) const { return id == o.id; }
   int __cmp__(const Basic &o) const { return id == o.id ? 0 : (id < o.id ? -1 : 1); }   /* assumed C02 contract */
   RCPBasic get_arg1() const { return arg1; }
